@@ -104,4 +104,36 @@ def discharge(engine: Engine, reports, schedule=None, both=False, workers=16):
 
     with ThreadPoolExecutor(max_workers=workers) as ex:
         list(ex.map(work, obs))
+
+    # Rescue pass: an obligation that nobody proved and nobody refuted may just have lost the race for CPU time
+    # (all 16 cores busy, other checks running).  Re-run those few with long budgets and little parallelism so the
+    # verdict does not depend on the load.  Never turns a 'sat' into anything else.
+    def undecided(o):
+        return (o.expect == "unsat" and not o.ok and o.result is not None and o.result.status not in ("sat", "disagree")
+                and getattr(getattr(o, "refute", None), "status", None) != "sat")
+
+    def rescue(o):
+        long = (("z3", 60), ("cvc5", 90))
+        tries = [(vc_text(engine, o, defs="ground", fuel=max(2, o.fuel)), "(ground-defs)"),
+                 (vc_text(engine, o), ""),
+                 (vc_text(engine, o, defs="ground", fuel=max(2, o.fuel), nl="abstract"), "(ground-defs, products abstracted)")]
+        for txt, tag in tries:
+            res = solver.solve_text(txt, schedule=long)
+            if res.status == "unsat":
+                res.solver = res.solver + tag + "[rescue]"
+                res.attempts = o.result.attempts + res.attempts
+                res.time_s += o.result.time_s
+                o.result = res
+                o.ok = True
+                return o
+            if res.status == "sat" and tag == "":
+                o.result = res
+                return o
+        return o
+
+    left = [o for o in obs if undecided(o)]
+    if left:
+        # many undecided obligations at once is a changed function, not load: rescue only a handful
+        with ThreadPoolExecutor(max_workers=4) as ex:
+            list(ex.map(rescue, left[:12]))
     return obs
